@@ -320,7 +320,7 @@ def items_for(tier, which="viol"):
     nblocks = 3 if quick else 4
     for op in OPS:
         if op in ("extract_chans",):
-            prms = [dict(chans=[1, 0]), dict(chans=[0, 1], batch_size=1)] if quick else [dict(chans=[0]), dict(chans=[1, 0]), dict(chans=[2, 2]), dict(chans=[0, 1], batch_size=1)]
+            prms = [dict(chans=[1, 0]), dict(chans=[0, 1], batch_size=1)] if quick else [dict(chans=[0]), dict(chans=[1, 0]), dict(chans=[2, 0, 1]), dict(chans=[0, 1], batch_size=1)]
         elif op == "extract_bands":
             prms = [dict(chanstart=0, nchans_sel=4, chanpersub=2), dict(chanstart=0, nchans_sel=4, chanpersub=2, batch_size=1)] if quick else [dict(chanstart=0, nchans_sel=4, chanpersub=2), dict(chanstart=2, nchans_sel=2, chanpersub=2), dict(chanstart=0, nchans_sel=4, chanpersub=4), dict(chanstart=0, nchans_sel=4, chanpersub=2, batch_size=1)]
         elif op == "downsample":
@@ -351,7 +351,10 @@ def items_for(tier, which="viol"):
                     continue
                 for nfiles in ((1,) if quick else (1, 2)):
                     for none in ((False,) if quick else (False, True)):
-                        items.append((op, nbits, nchans, nfiles, none, prm, nblocks, 2 if quick else 10, 240 if quick else 1500, which))
+                        # measured: 4 blocks of sub-byte data over 2 files leave z3 undecided (> 180 s per query) and the
+                        # whole tier at over an hour; those configurations explore 3 blocks
+                        nb = 3 if (nbits < 8 and nfiles >= 2) else nblocks
+                        items.append((op, nbits, nchans, nfiles, none, prm, nb, 2 if quick else 10, 240 if quick else 1500, which))
     return items
 
 
@@ -393,7 +396,9 @@ def common_setup(R):
              "kernel contracts established from the numba IR at small shapes (see kernel_contracts)",
              "delays 0 at channel 0, non-decreasing, <= maxdelay < nsamps", "remove_zerodm: the bandpass handed to the kernel is a concrete vector from a small alphabet ([2,6,8], [1,1,1], [5,0,3]); the bandpass computation itself is C06",
              "encode_header yields opaque header bytes (content is C05)")
-    R.out_of_claim("requantize (covered by C04)", "plans beyond the block bound", "float32 rounding", "zero-DM results that leave the representable range")
+    R.out_of_claim("requantize (covered by C04)", "plans beyond the block bound", "float32 rounding", "zero-DM results that leave the representable range",
+                   "channel lists that name a channel twice (both outputs would go to the same file name)",
+                   "paths whose branch feasibility z3 leaves undecided within 60 s + 180 s (counted under cut reason 'solver-unknown')")
     return quick
 
 
